@@ -130,7 +130,11 @@ fn run_one(cfg: &Cfg, prelude: &[u8], script: &[u8], trace: bool) -> (Vec<(Strin
     if cfg.predicate {
         b = b.reconnect_predicate(|e: &dyn StdError| e.to_string().ends_with("kind 0"));
     }
-    let layer = ReconnectLayer::new(b.build());
+    // (ReconnectConfig's Clone is written by hand: every second limit builds its layer from a
+    // clone of the configuration, as an application configuring two backends from one
+    // template does)
+    let built = b.build();
+    let layer = ReconnectLayer::new(if cfg.max.unwrap_or(0) % 2 == 0 { built.clone() } else { built });
     let state = layer.state().clone();
     let mut svc = layer.layer(GatedInner::new(w.inner.clone()));
     // state sampled at the start of every inner call
